@@ -16,10 +16,10 @@ ASSUMPTIONS = [
     "samples with |value| < 1e-100 are flushed to exactly 0 before the call (non-zero |values| and differences stay >= 1e-116): "
     "the code multiplies neighbouring samples / successive differences and a product below 1e-308 underflows - an implicit "
     "precondition no ground motion violates (DESIGN C12.2, as C11)",
-    "switched peaks are not asserted on the all-zero series (no excursion, no turning point: the function is built on the "
-    "local-peak list, which C11 specifies for non-constant series only; observed, not asserted: it returns [0, 0]); non-zero "
-    "constant series are asserted (one excursion, reported at index 0); the tolerance clauses skip constant series for the "
-    "switched peaks; crossings are asserted on every series of length >= 1",
+    "on the all-zero series (no excursion, no turning point) the switched peaks must be in-range and strictly ascending like for "
+    "every series; the library returns [0, 0] there (open known finding C12-KF2); non-zero constant series are asserted (one "
+    "excursion, reported at index 0); the tolerance clauses skip constant series for the switched peaks; crossings are asserted "
+    "on every series of length >= 1",
     "where the statement leaves a choice the check accepts every choice: an excursion that attains its largest |value| at several "
     "indices may report any of them, and a zero-valued first sample / final run may or may not be reported; the canonical "
     "reference (first index of the largest |value|, all zero-valued reported local peaks) is compared for equality only where no "
@@ -254,6 +254,21 @@ def exhaustive(case, ctx):
     _check_crossings(ctx, a, arg)
     if np.any(a != 0):
         _check_switched(ctx, a, arg)
+    else:
+        _check_switched_all_zero(ctx, a, arg)
+
+
+def _check_switched_all_zero(ctx, a, arg):
+    """The all-zero series has no excursion: every reported index must be a (zero-valued) sample of the series and the
+    list strictly ascending, as for every series."""
+    got = _ints(ctx, ctx.lib(pc.get_switched_peak_array_indices, arg), "switched peaks")
+    ctx.cls("all-zero")
+    ctx.check(all(0 <= i < len(a) for i in got), "switched peaks of the all-zero series outside the series: %s" % _sh(got))
+    if all(x < y for x, y in zip(got, got[1:])):
+        return
+    if ctx.kf("C12-KF2") and all(i == 0 for i in got):
+        return  # known finding: index 0 reported twice
+    ctx.fail("switched peaks of the all-zero series are not strictly ascending: %s" % _sh(got))
 
 
 # ---------------------------------------------------------------------------
